@@ -113,6 +113,14 @@ def texts_for(cname):
     t = ['a\n', 'a\r\nb', '\n']
     if c:
         t.append('x' + c + '\n' + c)
+    # characters outside the BMP (surrogate pairs in UTF-16) where the
+    # codec has them
+    try:
+        a = 'a\U00010000\nb\U0001f600c\n\U0010ffff\n'
+        if a.encode(cname).decode(cname) == a:
+            t.append(a)
+    except Exception:
+        pass
     return t
 
 
